@@ -244,7 +244,7 @@ class ResourcePeriodicallyUnavailable(ResourceConstraint):
         if isinstance(self.resource, Worker):
             workers = [self.resource]
         elif isinstance(self.resource, CumulativeWorker):
-            workers = self.resource.cumulative_workers
+            workers = self.resource._cumulative_workers
 
         resource_assigned = False
 
@@ -423,7 +423,7 @@ class ResourcePeriodicallyInterrupted(ResourceConstraint):
         if isinstance(self.resource, Worker):
             workers = [self.resource]
         elif isinstance(self.resource, CumulativeWorker):
-            workers = self.resource.cumulative_workers
+            workers = self.resource._cumulative_workers
 
         resource_assigned = False
 
